@@ -1783,6 +1783,7 @@ func main() {
 	g := &gen{c, c.Rng.Fork()}
 	ch.precompileStream(g)
 	ch.offsetLengthLattice(g)
+	ch.truncatedPushTails()
 	start := time.Now()
 	budget := time.Duration(c.Scale(16, 900)) * time.Second
 	cases := g.templates()
@@ -2649,4 +2650,90 @@ func (g *gen) factories() []*tcase {
 		emit(inits, "scn/factory-random")
 	}
 	return out
+}
+
+// ---------------------------------------------------------------- code ending in a (truncated) PUSH, with jumps
+
+// Deterministic family: code of exactly L bytes (L a multiple of 8: the boundary of the jump-destination bitmap)
+// whose last 1..3 bytes are a PUSH1..PUSH32 with truncated data, and that executes a JUMP / JUMPI to a valid JUMPDEST
+// and to an invalid destination (the lazy jump-destination analysis runs at the first jump).  Padded with JUMPDEST /
+// STOP / PUSH1 bytes.  Each program runs as the code of a called contract and as transaction-level init code.
+func truncTailProgram(L, n, tl, variant, pad int) []byte {
+	last := byte(L - 1) // the trailing PUSH itself (tl = 1) or its data: never a valid destination
+	var body []byte
+	switch variant {
+	case 0: // JUMP to a valid destination
+		body = []byte{0x60, 0x03, 0x56, 0x5b}
+	case 1: // JUMP to an invalid destination
+		body = []byte{0x60, last, 0x56}
+	case 2: // JUMPI taken, valid
+		body = []byte{0x60, 0x01, 0x60, 0x05, 0x57, 0x5b}
+	case 3: // JUMPI taken, invalid
+		body = []byte{0x60, 0x01, 0x60, last, 0x57}
+	default: // JUMP valid, JUMPI valid, JUMPI invalid
+		body = []byte{0x60, 0x03, 0x56, 0x5b, 0x60, 0x01, 0x60, 0x09, 0x57, 0x5b, 0x60, 0x01, 0x60, last, 0x57}
+	}
+	room := L - tl - len(body)
+	if room < 0 {
+		return nil
+	}
+	code := append([]byte{}, body...)
+	switch pad {
+	case 0:
+		for i := 0; i < room; i++ {
+			code = append(code, 0x5b)
+		}
+	case 1:
+		for i := 0; i < room; i++ {
+			code = append(code, 0x00)
+		}
+	default:
+		if room%2 == 1 { // keep the trailing PUSH an instruction, not data of the padding
+			code = append(code, 0x5b)
+			room--
+		}
+		for i := 0; i < room; i += 2 {
+			code = append(code, 0x60, 0x5b)
+		}
+	}
+	code = append(code, byte(0x60+n-1))
+	for i := 1; i < tl; i++ {
+		code = append(code, 0x5b)
+	}
+	return code
+}
+
+func (ch *checker) truncatedPushTails() {
+	epochs := []int64{10000, 30000, 40000}
+	ret := (&asm{}).pushU(0).pushU(0).op(0xf3).bytes()
+	names := []string{"jump-valid", "jump-invalid", "jumpi-valid", "jumpi-invalid", "all"}
+	cnt := 0
+	for _, L := range []int{8, 16, 24, 32, 40, 64} {
+		for n := 1; n <= 32; n++ {
+			for tl := 1; tl <= 3; tl++ {
+				for v := 0; v < 5; v++ {
+					for pad := 0; pad < 3; pad++ {
+						// quick tier: one padding per point, except for PUSH32 / PUSH1 / tail of one byte (the boundary ones)
+						if !ch.c.Thorough() && !(n == 32 && tl == 1) && pad != (n+tl+v+L/8)%3 {
+							continue
+						}
+						code := truncTailProgram(L, n, tl, v, pad)
+						if code == nil {
+							continue
+						}
+						if len(code) != L {
+							ch.c.Fatal("truncated-push family: program of %d bytes for L=%d", len(code), L)
+						}
+						h := epochs[(n+tl+v+pad)%3]
+						ch.check(&tcase{Kind: "call", Height: h, Gas: 100000, Value: "0x0", Caller: ha(addrCaller), Target: ha(addrMain), Data: "-",
+							Accts: baseAccts(code, ret, nil), Class: "trunc-push-tail/call-" + names[v], light: true}, true)
+						ch.check(&tcase{Kind: "create", Height: h, Gas: 200000, Value: "0x0", Caller: ha(addrCaller), Target: "0x0", Data: hexb(code),
+							Accts: baseAccts(nil, ret, nil), Class: "trunc-push-tail/create-" + names[v], light: true}, true)
+						cnt += 2
+					}
+				}
+			}
+		}
+	}
+	ch.c.Note("code ending in a truncated PUSH: %d cases = code lengths {8,16,24,32,40,64} x PUSH1..PUSH32 in the last 1..3 bytes x {JUMP, JUMPI} x {valid, invalid destination} x JUMPDEST/STOP/PUSH1 padding, as called code and as init code", cnt)
 }
